@@ -127,7 +127,7 @@ type runOutcome struct {
 
 func obOK(ob *Obligation) bool {
 	if ob.Cover {
-		return ob.Verdict != "unsat"
+		return ob.Verdict == "sat" || ob.Verdict == "unknown" || ob.Verdict == "timeout"
 	}
 	return ob.Verdict == "unsat"
 }
@@ -265,7 +265,7 @@ func (m mapImporter) Import(path string) (*types.Package, error) {
 }
 
 // recheck re-parses and re-typechecks the packages containing replaced files, returning a new package list.
-func recheck(pkgs []*packages.Package, all map[string]*packages.Package, repl map[string][]byte) ([]*packages.Package, error) {
+func recheck(pkgs []*packages.Package, all map[string]*packages.Package, repl map[string][]byte, ov map[string][]byte) ([]*packages.Package, error) {
 	var out []*packages.Package
 	for _, p := range pkgs {
 		touched := false
@@ -283,6 +283,8 @@ func recheck(pkgs []*packages.Package, all map[string]*packages.Package, repl ma
 		for _, f := range p.GoFiles {
 			var src interface{}
 			if b, ok := repl[f]; ok {
+				src = b
+			} else if b, ok := ov[f]; ok {
 				src = b
 			}
 			af, err := parser.ParseFile(fset, f, src, parser.ParseComments)
@@ -309,6 +311,8 @@ func recheck(pkgs []*packages.Package, all map[string]*packages.Package, repl ma
 }
 
 // ---- the check command ----
+
+var buildOverlay map[string][]byte
 
 type evidence struct {
 	PropertyID string                 `json:"property_id"`
@@ -374,6 +378,7 @@ func cmdCheck(args []string) {
 		fmt.Fprintln(os.Stderr, err)
 		os.Exit(2)
 	}
+	buildOverlay = ov
 	pkgs, err := loadPackages(cfg.Packages, ov)
 	if err != nil {
 		fmt.Fprintln(os.Stderr, err)
@@ -609,7 +614,7 @@ func runMutant(pkgs []*packages.Package, v0 *Verifier, cfg *PropConfig, tier, pa
 	if err != nil {
 		return false, "", err
 	}
-	npkgs, err := recheck(pkgs, v0.Pkgs, repl)
+	npkgs, err := recheck(pkgs, v0.Pkgs, repl, buildOverlay)
 	if err != nil {
 		return false, "", err
 	}
